@@ -3,6 +3,7 @@
 Everything here is purely structural: nothing of the analysed crate is executed.
 """
 import json
+import os
 import re
 import sys
 
@@ -315,6 +316,52 @@ def callee_of(t):
     return t.get("resolved") or t.get("callee")
 
 
+_DIG = re.compile(r"[0-9]+")
+
+
+def _norm(p):
+    return _DIG.sub("N", p)
+
+
+def _alias_moved_items(data):
+    """An item the rules know by its path (oracles/known_functions.json, known_types.json) that was MOVED to another module - same name,
+    different prefix, the known path gone - is renamed back to the known path in the raw facts, so that a module reorganisation does not
+    read as `anchor missing`.  Only unambiguous cases: exactly one new item carries the name, exactly one known item of that name is absent.
+    (A renamed item is a different matter: its role has to be re-learnt by a person.)"""
+    base = os.path.join(os.path.dirname(os.path.dirname(os.path.abspath(__file__))), "oracles")
+    try:
+        kf = set(json.load(open(os.path.join(base, "known_functions.json")))["paths"])
+        kt = set(json.load(open(os.path.join(base, "known_types.json")))["paths"])
+    except (OSError, ValueError, KeyError):
+        return data
+    plain = lambda q: not q.startswith("<") and "{closure" not in q and "::_::" not in q and "{impl" not in q
+    for kind, known in (("adt", kt), ("fn", kf)):
+        present = set(re.findall(r'"rec":\s*"%s",\s*"path":\s*"([^"]+)"' % kind, data))
+        have = {_norm(q) for q in present}
+        new = [q for q in present if plain(q) and _norm(q) not in known and "::" in q]
+        absent = [p_ for p_ in known if plain(p_) and p_ not in have and "::" in p_]
+        if not new or not absent:
+            continue
+        by_tail = {}
+        for p_ in absent:
+            by_tail.setdefault(p_.rsplit("::", 1)[1], []).append(p_)
+        new_by_tail = {}
+        for q in new:
+            new_by_tail.setdefault(_norm(q.rsplit("::", 1)[1]), []).append(q)
+        for tail, qs in new_by_tail.items():
+            cands = by_tail.get(tail, [])
+            prefixes = {q.rsplit("::", 1)[0] for q in qs}
+            if len(cands) != 1 or len(prefixes) != 1:
+                continue
+            target_prefix = cands[0].rsplit("::", 1)[0]
+            for q in qs:
+                p_new = target_prefix + "::" + q.rsplit("::", 1)[1]
+                if p_new in present:
+                    continue
+                data = re.sub(r'(?<![A-Za-z0-9_:])' + re.escape(q) + r'(?![A-Za-z0-9_])', p_new, data)
+    return data
+
+
 class Program:
     def __init__(self, path):
         self.fns = {}
@@ -333,6 +380,7 @@ class Program:
         data = _LT.sub("", data)
         for a in ('"', " ", "<", "(", "&", "[", ","):
             data = data.replace(a + "std::", a + "core::").replace(a + "alloc::", a + "core::")
+        data = _alias_moved_items(data)
         was = gc.isenabled()
         gc.disable()  # millions of small objects: the cyclic GC only costs time here
         try:
